@@ -158,9 +158,21 @@ func (e *Enc) instr(in ssa.Instruction, st *State) {
 	case *ssa.Send:
 		// channel operations are not modelled (DESIGN 2.2): for panic freedom of the sender a send is a
 		// skip apart from the nil-channel / closed-channel cases, which are stated as an assumption
-		e.term(x.Chan)
-		e.term(x.X)
+		ch := e.term(x.Chan)
+		v := e.term(x.X)
 		e.usedSend = true
+		// ghost log of the channel: number of values sent and the last value sent
+		et := x.Chan.Type().Underlying().(*types.Chan).Elem()
+		nName, lName, lSort := chanGhost(e, et)
+		if e.fc != nil {
+			if cond := e.allowedWrite(nName, ch, nil); cond.S != "true" {
+				e.oblige("frame", "send: "+e.p.srcLine(x.Pos()), e.fc.frameTags(), cond, x.Pos())
+			}
+		}
+		hn := st.heapGet(e, nName, arrSort(sInt))
+		hl := st.heapGet(e, lName, arrSort(lSort))
+		st.heap[nName] = e.def(nName, tStore(hn, ch, Term{app("+", tSelect(hn, ch).S, "1"), sInt}))
+		st.heap[lName] = e.def(lName, tStore(hl, ch, v))
 	case *ssa.Range, *ssa.Next, *ssa.TypeAssert, *ssa.MakeClosure, *ssa.MakeChan, *ssa.Go, *ssa.Defer, *ssa.Select:
 		e.otherInstr(in, st)
 	default:
@@ -620,4 +632,8 @@ func (e *Enc) ret(x *ssa.Return, st *State) {
 		}
 	}
 	_ = strings.TrimSpace
+}
+
+func chanGhost(e *Enc, et types.Type) (nName, lName, lSort string) {
+	return "G.chan.nsent", "G.chan.last." + typeKey(et), e.reg.sortOf(et)
 }
